@@ -1366,4 +1366,68 @@ theorem generations_congr (P : Params C D) (cfg : Cfg) (d1 d2 : Draws D) (hag : 
 
 end Congr
 
+theorem exists_head {α : Type} (l : List α) (h : 0 < l.length) : ∃ a, l[0]? = some a :=
+  ⟨l[0], List.getElem?_eq_getElem h⟩
+
+/-! ## Unconditional facts about `update_hof`, splitting of runs -/
+section Misc
+variable {C D : Type}
+
+/-- `update_hof` keeps the length and every entry of the result is an old entry or carries the score of a population
+    member — for *every* heap, hall of fame and population (no invariant assumed) -/
+theorem updateHof_length_mem (t : Tol) (size : C → Nat) (n : Nat) :
+    ∀ (pop : List PopEntry) {h h' : Heap C} {hof hof' : List HofEntry},
+      hof.length = n → updateHof t size n h hof pop = .ok (h', hof') →
+      hof'.length = n ∧ ∀ x ∈ hof', x ∈ hof ∨ ∃ e ∈ pop, x.score = e.score := by
+  intro pop
+  induction pop with
+  | nil =>
+    intro h h' hof hof' hlen hres
+    simp only [updateHof, Except.ok.injEq, Prod.mk.injEq] at hres
+    obtain ⟨rfl, rfl⟩ := hres
+    exact ⟨hlen, fun x hx => Or.inl hx⟩
+  | cons e rest ih =>
+    intro h h' hof hof' hlen hres
+    simp only [updateHof] at hres
+    split at hres
+    · simp at hres
+    · next h1 hof1 hone =>
+      obtain ⟨l1, m1, _⟩ := updateHofOne_head t size n hlen hone
+      obtain ⟨l2, m2⟩ := ih (l1.trans hlen) hres
+      refine ⟨l2, ?_⟩
+      intro x hx
+      rcases m2 x hx with hm | ⟨e', he', hs⟩
+      · rcases m1 x hm with hm' | hs
+        · exact Or.inl hm'
+        · exact Or.inr ⟨e, List.mem_cons_self, hs⟩
+      · exact Or.inr ⟨e', List.mem_cons_of_mem _ he', hs⟩
+
+theorem generations_split (P : Params C D) (cfg : Cfg) (dr : Draws D) :
+    ∀ (a b g : Nat) {s s' : St C}, generations P cfg dr g (a + b) s = .ok s' →
+      ∃ m, generations P cfg dr g a s = .ok m ∧ generations P cfg dr (g + a) b m = .ok s' := by
+  intro a
+  induction a with
+  | zero => intro b g s s' h; exact ⟨s, by simp [generations], by simpa using h⟩
+  | succ a ih =>
+    intro b g s s' h
+    have e : a + 1 + b = (a + b) + 1 := by omega
+    rw [e] at h
+    simp only [generations] at h
+    split at h
+    · simp at h
+    · next s1 hs1 =>
+      obtain ⟨m, hm1, hm2⟩ := ih b (g + 1) h
+      refine ⟨m, ?_, ?_⟩
+      · simp only [generations, hs1]; exact hm1
+      · have : g + (a + 1) = g + 1 + a := by omega
+        rw [this]; exact hm2
+
+/-- the run is a function of the draws it consumes -/
+theorem solve_congr (P : Params C D) (cfg : Cfg) (d1 d2 : Draws D) (hag : Draws.AgreeOn cfg d1 d2)
+    (tp : TransProbs) (init : List C) : solve P cfg d1 tp init = solve P cfg d2 tp init := by
+  unfold solve
+  rw [generations_congr P cfg d1 d2 hag cfg.nStop 0 _ (by omega)]
+
+end Misc
+
 end Graphiq.Evo
